@@ -82,7 +82,7 @@ def _secs(case_or_model, notes):
 
 @st.composite
 def _case(draw, targets=None, invalid=False, repeat=False, cross=False, route=None, colon=False):
-    m = draw(gen.any_model(targets, 1, 3, depth=0))
+    m = draw(gen.any_model(targets, 2 if cross == "directions" else 1, 3, depth=0))
     notes = draw(st.booleans()) or colon
     secs = _secs(m, notes)
     nops = draw(st.integers(1, 5))
@@ -254,7 +254,11 @@ def _case(draw, targets=None, invalid=False, repeat=False, cross=False, route=No
             # an added item that names an existing section with a blank more ('Pair ', 'Table-Form:my tab'): typed into
             # the file this is a second definition of that section
             secname = draw(st.sampled_from(sorted(set(nn for nn, _, _ in keys))))
-            variant = draw(st.sampled_from([secname + " ", " " + secname, secname[:2] + " " + secname[2:]]))
+            # (the blank goes into the NAME part of 'Table-Form:name': potable finds the section/key boundary of a label
+            # from the literal prefix 'Table-Form:', so 'Ta ble-Form:tab1:k' is key 'tab1:k' of an unrelated section)
+            cut = (secname.index(":") + 2) if ":" in secname else 2
+            variant = draw(st.sampled_from([secname + " ", (secname.replace(":", ": ") if ":" in secname else " " + secname),
+                                            secname[:cut] + " " + secname[cut:]]))
             bad = {"op": "add", "section": variant, "key0": "Xq-Zq", "key": "Xq-Zq", "value": "as.constant 7"}
         elif why == "add_existing":
             bad = {"op": "add", "section": n, "key0": k, "key": k, "value": v}
